@@ -98,6 +98,33 @@ class Report:
             return False
         return True
 
+    def borrow(self, fn, *args, keep=None, rename=None, why=None):
+        """Run a sibling property's rule into this report: obligations the
+        predicate `keep` selects are taken over under the name rename(rule);
+        the rest (also the sibling's floors / counts) is dropped."""
+        n0, e0 = len(self.obs), len(self.errors)
+        a0 = dict(self.analysed)
+        fn(*args)
+        new = self.obs[n0:]
+        del self.obs[n0:]
+        errs = self.errors[e0:]
+        del self.errors[e0:]
+        self.analysed = a0
+        taken = []
+        for o in new:
+            if keep is not None and not keep(o):
+                continue
+            old = o.rule
+            if rename is not None:
+                o.rule = rename(o.rule)
+            if o.verdict == INCONCLUSIVE:
+                self.errors.append(f'{o.rule} at {o.site}: {o.why}')
+            elif o.verdict == VIOLATED and why:
+                o.why = f'{why} [{old}: {o.why}]'
+            self.obs.append(o)
+            taken.append(o)
+        return taken
+
     # ------------------------------------------------------------------
     def finish(self):
         known = load_known()
